@@ -60,6 +60,13 @@ def units(tier, seed):
     # keyword phase: positional part only in two representative shapes
     if (po, pk, nd) in ((0, 0, 0), (1, 1, 1), (0, 2, 0)) and po <= b['max_po']:
       out.append(('K', sig, b['vcap']))
+  if b['vcap'] < 3:
+    # three *args values (stepped slices over a longer variadic tail) on the
+    # smallest prefixes
+    for sig in S.all_sigs(b['max_po'], b['max_pk'], b['max_ko']):
+      po, pk, nd, var, ko, kw = sig
+      if var and (ko, kw) == ((), False) and po + pk <= 1 and nd == 0:
+        out.append(('P', sig, 3))
   # cheapest first so the first counterexample is the simplest
   # biggest state spaces first (load balance); the minimal witness per
   # violation class is selected by the runner, not by visiting order.
